@@ -9,6 +9,7 @@ one positional constructor argument ``seed`` that is *not* a hyper-parameter. Be
 so that the reference model in vf/checks/c13.py can predict every output exactly. An untrained stateful actor raises
 RuntimeError on apply.
 """
+import functools
 import json
 import typing
 
@@ -138,6 +139,22 @@ def FnSparse(state, x, *, a: int = 0, b: int = 0):  # pylint: disable=function-r
     return 'fn-sparse-state', 0, (a, b), state, x
 
 
+@wrap.Actor.train
+def FnInplace(state, features, labels, *, a: int = 0, b: int = 0):
+    """Stateful function actor that updates its (mutable) state *in place* and returns the same object - the style of
+    forml's own tests (``state['n'] += 1; return state``) and of any incremental learner with ``partial_fit``."""
+    if state is None:
+        state = []
+    state.append(((a, b), features, labels))
+    return state
+
+
+@FnInplace.apply
+def FnInplace(state, x, *, a: int = 0, b: int = 0):  # pylint: disable=function-redefined
+    """Apply part of the in-place function actor."""
+    return 'fn-inplace-state', 0, (a, b), tuple(state), x
+
+
 # ---- mapped third-party style classes --------------------------------------------------------------------------------------
 class Estimator:
     """Third-party style estimator (fit/predict/get_params/set_params)."""
@@ -251,6 +268,31 @@ class MappedRequiredArg(Estimator):
         super().__init__(seed, a=a, b=b)
 
 
+class traced:  # pylint: disable=invalid-name
+    """Class-based method decorator (a descriptor object, as used for tracing / validation / caching decorators written
+    as classes): on the class the attribute is this callable object, not a plain function."""
+
+    def __init__(self, method):
+        self.method = method
+
+    def __get__(self, instance, owner=None):
+        return self if instance is None else functools.partial(self.method, instance)
+
+    def __call__(self, *args, **kwargs):
+        return self.method(*args, **kwargs)
+
+
+@wrap.Actor.type(train='fit', apply='predict')
+class MappedTracedMethod(Estimator):
+    """Method-name mapping onto a class whose training method is wrapped by a class-based decorator."""
+
+    TAG = 'mapped-traced-method'
+
+    @traced
+    def fit(self, features, labels) -> None:
+        self.history_ = (self.history_ or ()) + (((self.a, self.b), features, labels),)
+
+
 @wrap.Actor.type
 class MappedBare:
     """Documented parameterless use of the decorator: the class already speaks the actor method names."""
@@ -301,10 +343,12 @@ FLAVOURS = {
     'fn-stateless': _flavour(FnStateless, False, seeded=False, defaults=False),
     'fn-stateful': _flavour(FnStateful, True, seeded=False, defaults=False),
     'fn-sparse-state': _flavour(FnSparse, True, seeded=False, defaults=False),
+    'fn-inplace-state': _flavour(FnInplace, True, seeded=False, defaults=False),
     'mapped-names': _flavour(MappedNames, True, importable=False),
     'mapped-callables': _flavour(MappedCallables, True, importable=False),
     'mapped-stateless': _flavour(MappedStateless, False),
     'mapped-decorated': _flavour(MappedDecorated, True),
     'mapped-bare': _flavour(MappedBare, True),
+    'mapped-traced-method': _flavour(MappedTracedMethod, True),
     'mapped-required-arg': _flavour(MappedRequiredArg, True, required=True),
 }
